@@ -108,6 +108,7 @@ static void ev_bytes(unsigned char const *b, int len)
     unsigned char *q = exact(b, len);
     a_size stop = 12345;
     a_size cnt = a_utf_length(q, (a_size)len, &stop);
+    a_size fast = a_utf_length_(q, (a_size)len);   /* counter for text known to be well formed */
     free(q);
     FILE *f = out();
     fprintf(f, "{\"f\":\"length\",\"num\":%d,\"b\":", len);
@@ -122,7 +123,7 @@ static void ev_bytes(unsigned char const *b, int len)
         if (!d || pos > len) { break; }
         pos += (int)d;
     }
-    fprintf(f, "],\"count\":%lu,\"stop\":%lu}\n", (unsigned long)cnt, (unsigned long)stop);
+    fprintf(f, "],\"count\":%lu,\"stop\":%lu,\"fast\":%lu}\n", (unsigned long)cnt, (unsigned long)stop, (unsigned long)fast);
     /* the same count through the string object: the stated length is the string's length, the capacity behind it
        holds stale text that must not be counted */
     {
